@@ -169,7 +169,7 @@ void RegxParser::processNext() {
                     fOffset++;
                 }
                 else {
-                    throw XMLErrs::Expected2ndSurrogateChar;
+                    ThrowXMLwithMemMgr(ParseException, XMLExcepts::Parser_Next1, fMemoryManager);
                 }
             }
 
@@ -230,7 +230,7 @@ void RegxParser::processNext() {
                     fOffset++;
                 }
                 else {
-                    throw XMLErrs::Expected2ndSurrogateChar;
+                    ThrowXMLwithMemMgr(ParseException, XMLExcepts::Parser_Next1, fMemoryManager);
                 }
             }
     }
